@@ -1,7 +1,8 @@
 //! C27 — wire-protocol decoding is safe and respects framing (DESIGN §5 C27).
 //!
 //! Space (all enumerated, nothing sampled):
-//!  (a) every byte string of length ≤ N over Σ = {00,01,03,04,05,08,7F,80,FF,'Q','p','X','a'},
+//!  (a) every byte string of length ≤ N (quick 7: 6.8·10⁷ strings, thorough 8: 8.8·10⁸) over
+//!      Σ = {00,01,03,04,05,08,7F,80,FF,'Q','p','X','a'},
 //!      each through `FrontendMessage::decode` and `FrontendMessage::decode_startup`;
 //!  (b) structured regular frames  type × declared length × payload × trailing bytes;
 //!  (c) structured startup packets declared length × body × trailing bytes;
